@@ -990,6 +990,11 @@ inline double ulp_dist(double a, double b)
 	return std::fabs((double) ia - (double) ib);
 }
 
+// "equal to rounding": identical, both NaN, or at most n units in the last place apart.  Used where a property states an identity between two results
+// of the library but not that they are computed by the same sequence of operations (a re-associated sum, a product with a precomputed reciprocal, an
+// (a+b)/2 written as a+(b-a)/2 are all legitimate): demanding identical bits there would alarm on harmless maintenance changes.
+inline bool near_ulps(double a, double b, double n) { return same_bits(a, b) || ulp_dist(a, b) <= n; }
+
 }	// namespace vf
 
 #define VERIF_MAIN(PROPERTY, SETUP)                                \
